@@ -162,6 +162,11 @@ def resolve_local(expr, binds, depth=3):
 
 
 def run(ctx):
+    _run_main(ctx)
+    access_check_covers_the_query(ctx)
+
+
+def _run_main(ctx):
     F = ctx.facts
     ctx.explanation = ("K9: no call path from LdapServer::do_op / the LDAP actor to a write-transaction constructor (exact graph + dyn "
                        "over-approximation; positive controls: HTTP write actors reach it, do_op reaches auth/proxy_read/search_ext/exists). "
@@ -449,3 +454,58 @@ def is_anon_entry(expr, binds):
         cs = calls_in(e, "internal_search_uuid")
         return len(cs) == 1 and is_anon_search(e)
     return False
+
+
+# ---------------------------------------------------------------------------------------------------------------------
+# An event carries two filters: `filter` is executed, `filter_orig` is what the access check sees (filter_entries requires
+# the caller to hold a read grant for every attribute filter_orig mentions). For the LDAP gateway both must come from the
+# SAME client filter, otherwise an assertion on an attribute the bind cannot read is evaluated unchecked — compare becomes a
+# true/false oracle. (added after seeded change C40: do_compare executed the filter with the asserted value but handed the
+# access check the entry-selecting filter only)
+
+def access_check_covers_the_query(ctx):
+    R = "K3-access-check-covers-query"
+    n_ev = 0
+    for fname in ("do_compare", "do_search"):
+        f = ctx.fn(LIB, "kanidmd_lib::idm::ldap::LdapServer::" + fname)
+        inits = {}
+        for n in walk(f["body"]):
+            if n.get("s") == "let" and "init" in n and n["pat"].get("p") == "bind":
+                inits[n["pat"]["local"]] = n["init"]
+
+        def ldap_sources(e, depth=0, seen=None):
+            """locals handed (as the protocol filter) to from_ldap_ro anywhere in the let-closure of e"""
+            seen = set() if seen is None else seen
+            out = set()
+            for n in walk(e):
+                if n.get("e") == "call" and is_call_to(n, "from_ldap_ro") and len(n.get("args", [])) >= 2:
+                    a = unwrap(n["args"][1])
+                    while a.get("e") == "mcall":
+                        a = unwrap(a["recv"])
+                    if a.get("e") == "path" and "local" in a["res"]:
+                        out.add(a["res"]["local"])
+                if n.get("e") == "path" and "local" in n["res"]:
+                    l = n["res"]["local"]
+                    if l in inits and l not in seen and depth < 6:
+                        seen.add(l)
+                        out |= ldap_sources(inits[l], depth + 1, seen)
+            return out
+
+        for n in walk(f["body"]):
+            if n.get("e") != "struct":
+                continue
+            d = n["path"].get("def", "")
+            if not (d.endswith("event::ExistsEvent") or d.endswith("event::SearchEvent")):
+                continue
+            fl = {x["f"]: x["x"] for x in n["fields"]}
+            if "filter" not in fl or "filter_orig" not in fl:
+                continue
+            n_ev += 1
+            a, b = ldap_sources(fl["filter"]), ldap_sources(fl["filter_orig"])
+            ctx.check(bool(a) and a == b, R, f["fn"], f"{fname}:{short(d, 1)}#{n_ev}:same-client-filter",
+                      "executed filter and access-checked filter come from the same client filter",
+                      f"LdapServer::{fname} builds a {short(d, 1)} whose executed `filter` and access-checked `filter_orig` are translated from different "
+                      f"protocol filters ({len(a)} vs {len(b)} distinct sources): terms that are executed but not shown to the access check — the asserted "
+                      "attribute of a compare — are evaluated without a read grant, so the bind learns values it may not read",
+                      file=f["file"], line=n.get("line"))
+    ctx.floor(R, "LDAP event constructions with both filters", n_ev, 2)
